@@ -111,32 +111,39 @@ def sentences (sigma : List Nat) : Nat → List (List Nat)
 
 def symsOf (g : Fsg) : List Nat := SSVerif.Nfa.dedup (g.links.filterMap (·.wid))
 
-/-- depth-first comparison of the best log-probabilities of all sentences of length ≤ `len`, sharing the
-max-plus vectors of common prefixes (same values as `bestLogProb` sentence by sentence).  Returns the
-first difference, the number of sentences compared and how many of them are accepted. -/
-def bestDiff (g1 g2 : Fsg) (sigma : List Nat) (len : Nat) :
-    Option (List Nat × Option Int × Option Int) × Nat × Nat :=
+inductive BestCmp where
+  | same
+  | differ (w : List Nat) (a b : Option Int)
+  | gaveUp (w : List Nat)
+
+/-- depth-first comparison of the best log-probabilities of all sentences of length ≤ `len`.  The
+vectors of common prefixes are shared: along each branch the calls are exactly those of
+`dpVec g sentence` (`dpInit`, then `dpStep` per word), so the value compared at a node is
+`bestLogProb? g sentence` (`bestLogProb_sound`).  Returns the first difference (or a give-up), the
+number of sentences compared and how many of them are accepted. -/
+def bestDiff (g1 g2 : Fsg) (sigma : List Nat) (len : Nat) : BestCmp × Nat × Nat :=
   let n1 := stateBound g1
   let n2 := stateBound g2
-  let v1 := nullClose g1 n1 ((List.replicate n1 none).set g1.start (some 0))
-  let v2 := nullClose g2 n2 ((List.replicate n2 none).set g2.start (some 0))
-  let rec go (fuel : Nat) (pre : List Nat) (a b : Vec) (cnt acc : Nat) :
-      Option (List Nat × Option Int × Option Int) × Nat × Nat :=
+  let rec go (fuel : Nat) (pre : List Nat) (a b : Vec) (cnt acc : Nat) : BestCmp × Nat × Nat :=
     let x := a.get g1.final
     let y := b.get g2.final
-    if x != y then (some (pre.reverse, x, y), cnt + 1, acc) else
+    if x != y then (.differ pre.reverse x y, cnt + 1, acc) else
     let cnt := cnt + 1
     let acc := if x.isSome then acc + 1 else acc
     match fuel with
-    | 0 => (none, cnt, acc)
+    | 0 => (.same, cnt, acc)
     | fuel + 1 =>
-      sigma.foldl (fun (r : Option (List Nat × Option Int × Option Int) × Nat × Nat) w =>
+      sigma.foldl (fun (r : BestCmp × Nat × Nat) w =>
         match r with
-        | (some d, c, k) => (some d, c, k)
-        | (none, c, k) =>
-          go fuel (w :: pre) (nullClose g1 n1 (stepWord g1 n1 a w)) (nullClose g2 n2 (stepWord g2 n2 b w)) c k)
-        (none, cnt, acc)
-  go len [] v1 v2 0 0
+        | (.same, c, k) =>
+          match dpStep g1 n1 a w, dpStep g2 n2 b w with
+          | some a', some b' => go fuel (w :: pre) a' b' c k
+          | _, _ => (.gaveUp (w :: pre).reverse, c, k)
+        | other => other)
+        (.same, cnt, acc)
+  match dpInit g1 n1, dpInit g2 n2 with
+  | some v1, some v2 => go len [] v1 v2 0 0
+  | _, _ => (.gaveUp [], 0, 0)
 
 def step (s : St) (ws : List String) : St × String :=
   match ws with
@@ -225,12 +232,15 @@ def step (s : St) (ws : List String) : St × String :=
       let p2 := projWith fl bs g2
       let sigma := SSVerif.Nfa.dedup (symsOf p1 ++ symsOf p2)
       match bestDiff p1 p2 sigma len with
-      | (none, cnt, acc) => (s, s!"same {cnt} {acc}")
-      | (some (w, a, b), _, _) => (s, "differ " ++ showList (w.map toString) ++ " " ++ showOptInt a ++ " " ++ showOptInt b)
+      | (.same, cnt, acc) => (s, s!"same {cnt} {acc}")
+      | (.differ w a b, _, _) => (s, "differ " ++ showList (w.map toString) ++ " " ++ showOptInt a ++ " " ++ showOptInt b)
+      | (.gaveUp w, _, _) => (s, "error gave_up_at " ++ showList (w.map toString))
     | _, _, _, _, _ => (s, "bad-op")
   | ["best", n1, s1, f1, l1, sent] =>
     match parseGraph n1 s1 f1 l1, parseNats sent with
-    | some g1, some w => (s, "v " ++ showOptInt (bestLogProb g1 w))
+    | some g1, some w => (s, match bestLogProb? g1 w with
+        | some r => "v " ++ showOptInt r
+        | none => "error gave_up")
     | _, _ => (s, "bad-op")
   | _ => (s, "bad-op")
 
